@@ -26,7 +26,7 @@ import vlib
 LEVEL = "proof"
 PROP_FILE = "Props/Properties_C13.v"
 WRAPS = ("pthread_mutex_lock", "pthread_mutex_unlock", "pthread_cond_wait", "pthread_cond_signal",
-         "pthread_create", "pthread_join", "select", "read", "write")
+         "pthread_create", "pthread_join", "select", "read", "write", "pthread_mutex_init", "pthread_mutex_destroy")
 ASAN_ENV = {"ASAN_OPTIONS": "detect_leaks=0:abort_on_error=0:allocator_may_return_null=1"}
 TSAN_ENV = {"TSAN_OPTIONS": "halt_on_error=0 exitcode=0 report_signal_unsafe=0 detect_deadlocks=1 second_deadlock_stack=1"}
 
@@ -133,7 +133,14 @@ def gen_cases(ctx):
              "stress %d %d %d %d %d %d %d %d" % (seed, y, rng.randint(1, 3), rng.randint(0, 4), rng.randint(0, 2),
                                                  rng.randint(0, 3), rng.randint(0, 8), rng.randint(0, 1))]
         cases.append(c)
-    forced = [["case %d forced" % (len(cases) + i), "force " + w] for i, w in enumerate(("lostwakeup", "iteruaf", "cursor", "shutdownjoin"))]
+    # forced-schedule replays of the model's refutation witnesses: the four built-in ones + every script of corpus/C13/
+    forced_ops = ["force lostwakeup", "force iteruaf", "force cursor", "force shutdownjoin"]
+    cdir = os.path.join(vlib.VERIF, "corpus", "C13")
+    for f in sorted(os.listdir(cdir)) if os.path.isdir(cdir) else []:
+        for l in open(os.path.join(cdir, f)).read().split("\n"):
+            if l.startswith("force ") and l.strip() not in forced_ops:
+                forced_ops.append(l.strip())
+    forced = [["case %d forced" % (len(cases) + i), w] for i, w in enumerate(forced_ops)]
     # final-contents phases: every application operation as the LAST one, no request outstanding, then one
     # incremental request per staying client (Raw / CopyRect / CopyRect+RichCursor+PointerPos)
     nph = 5 if ctx.quick() else 40
@@ -182,6 +189,39 @@ def _generic(d, out, err, rc):
     return []
 
 
+def _misuse(d):
+    """the wrap layer's own mutex-misuse oracle: UNLOCK of a mutex the thread does not hold, an API call that returns
+    while the application thread still holds a library mutex"""
+    bu, hr = int(d.get("bad_unlock", 0) or 0), int(d.get("held_at_return", 0) or 0)
+    if not bu and not hr:
+        return []
+    txt = d.get("misuse", "-")
+    m = re.search(r":in_\(*([A-Za-z_0-9]+)", txt)
+    site = m.group(1) if m else "?"
+    what = []
+    if hr:
+        what.append("%d mutex(es) were still held by the application thread when the API call returned" % hr)
+    if bu:
+        what.append("%d UNLOCK(s) of a mutex the calling thread did not hold" % bu)
+    return [("mutex_misuse", "mutex misuse seen by the wrap layer: " + "; ".join(what) + " [kind:class+client:where = %s]" % txt,
+             {"defect": "mutex_misuse", "site": site}, "")]
+
+
+def _pairs_obs(d, model):
+    """every observed (held, acquired) mutex-class pair must be in the model's table - including pairs with the client
+    list mutex (G), the extension mutex (E) and mutexes the harness cannot name (X)"""
+    obs = []
+    for pr in d.get("pairs", []):
+        if pr not in model["table"]:
+            if pr in model["palette"]:
+                obs.append(("inversion:" + pr, "lock-order inversion observed: mutex class pair %s (held->acquired) is taken in the order the "
+                            "model's rank forbids" % pr, {"defect": "lock_order_inversion"}, ""))
+            else:
+                obs.append(("corr:pair:" + pr, "mutex-class pair %s (held->acquired%s) is not in the model's table" %
+                            (pr, ", X = a mutex the harness cannot name" if "X" in pr[:2] else ""), {"kind": "correspondence"}, ""))
+    return obs
+
+
 def judge_stress(c, r, model):
     rc, out, err = r
     d = parse_result(out)
@@ -213,13 +253,7 @@ def judge_stress(c, r, model):
     if z != 0:
         obs.append(("threads_not_reclaimed", "%d client threads that have ended were never joined after %d connect/disconnect cycles "
                     "(resources grow with the number of past connections)" % (z, n), {"defect": "threads_not_reclaimed"}, ""))
-    for pr in d.get("pairs", []):
-        if ("G" not in pr[:2] or pr in model["table"]) and pr not in model["table"]:
-            if pr in model["palette"]:
-                obs.append(("inversion:" + pr, "lock-order inversion observed: mutex class pair %s (held->acquired) is taken in the order the "
-                            "model's rank forbids" % pr, {"defect": "lock_order_inversion"}, ""))
-            else:
-                obs.append(("corr:pair:" + pr, "mutex-class pair %s (held->acquired) is not in the model's table" % pr, {"kind": "correspondence"}, ""))
+    obs += _pairs_obs(d, model) + _misuse(d)
     return obs, info
 
 
@@ -256,6 +290,35 @@ def judge_forced(c, r, model):
                         "currentCl->screen / currentCl->client_thread: heap-use-after-free in %s" % feat.get("site"), feat, asan_head(err)))
         else:
             obs += _generic(d, out, err, rc)
+    elif what == "newfbgone":
+        stuck = int(d.get("p_client_threads_ended", 2) or 0) < 2
+        held = int(d.get("held_at_return", d.get("p_held_at_return", 0)) or 0) > 0
+        info["seen"] = stuck or held
+        if stuck or held:
+            obs.append(("mutex_misuse", "forced schedule (the peer of an idle client disconnects while rfbNewFramebuffer is between its pass that locks every "
+                        "sendMutex and its pass that unlocks them): rfbNewFramebuffer returned still holding %s mutex(es) [%s]; of the client's two threads "
+                        "%s ended within 3 s (its clientInput thread is blocked in rfbClientConnectionGone on LOCK(cl->sendMutex))" %
+                        (d.get("held_at_return", "?"), d.get("misuse", "-"), d.get("p_client_threads_ended", "?")),
+                        {"defect": "mutex_misuse", "site": "rfbNewFramebuffer"}, ""))
+        obs += _generic(d, out, err, rc)
+    elif what == "newfbaccept":
+        bad = int(d.get("bad_unlock", d.get("p_bad_unlock", 0)) or 0) > 0
+        info["seen"] = bad
+        if bad:
+            obs.append(("mutex_misuse", "forced schedule (a connection is accepted while rfbNewFramebuffer is between its two passes): rfbNewFramebuffer "
+                        "UNLOCKs the sendMutex of the new client, which it never locked [%s]" % d.get("misuse", "-"),
+                        {"defect": "mutex_misuse", "site": "rfbNewFramebuffer"}, ""))
+        obs += _generic(d, out, err, rc)
+    elif what == "eintr":
+        bad = [k for k in ("p_served_after_signal", "p_torn_down_after_close", "p2_accepts_after_signal") if d.get(k) == "0"]
+        info["seen"] = bool(bad)
+        if bad:
+            obs.append(("select_failure", "a signal handler of the application (SA_RESTART) ran once on the client's thread and once on the listener thread "
+                        "(pthread_kill, as the kernel may do with any process-directed signal): select() returned EINTR there; afterwards: client still "
+                        "served = %s, torn down within 10 s after its peer closed = %s, new connections still accepted = %s" %
+                        (d.get("p_served_after_signal"), d.get("p_torn_down_after_close"), d.get("p2_accepts_after_signal")),
+                        {"defect": "select_failure"}, ""))
+        obs += _generic(d, out, err, rc) + [o for o in _misuse(d)]
     elif what == "cursor":
         b = int(d.get("burned_pixels", 0) or 0)
         info["seen"] = b > 0
@@ -290,7 +353,7 @@ def judge_phases(c, r, model):
                     {"defect": "final_contents", "after": op}, ""))
     else:
         info["completed"] = True
-    obs += _generic(d, out, err, rc)
+    obs += _generic(d, out, err, rc) + _pairs_obs(d, model) + _misuse(d)
     return obs, info
 
 
@@ -316,6 +379,7 @@ def judge_policy(c, r, model):
         obs += g
     elif "new" in d and (d.get("new") != d.get("gone") or d.get("dupgone", "0") != "0"):
         obs.append(("gone_count", "clientGoneHook ran %s times for %s accepted clients" % (d.get("gone"), d.get("new")), {"defect": "gone_count"}, ""))
+    obs += _pairs_obs(d, model) + _misuse(d)
     info["completed"] = not obs
     return obs, info
 
@@ -337,7 +401,7 @@ def judge_fragment(c, r, model):
                     {"defect": "final_contents", "after": "mark_during_send"}, ""))
     else:
         info["completed"] = True
-    obs += _generic(d, out, err, rc)
+    obs += _generic(d, out, err, rc) + _pairs_obs(d, model) + _misuse(d)
     return obs, info
 
 
@@ -535,7 +599,7 @@ def check(ctx):
     for u in unconfirmed[:10]:
         vlib.log("C13 UNCONFIRMED (not reproduced in the majority of %d re-runs, not reported): %s" % (RERUNS, " ".join(u["what"].split())[:200]))
 
-    other = sorted(p for p in pairs_seen if ("G" not in p[:2] or p in model["table"]) and p not in model["table"] and p not in model["palette"])
+    other = sorted(p for p in pairs_seen if p not in model["table"])
     ctx.coverage.update(
         evaluations=sum(hist.values()), distinct_nontrivial=len(pairs_seen) + sum(done.values()),
         final_contents_phase_runs_ok=done["phases"], policy_runs_ok=done["policy"], fragment_runs_ok=done["fragment"],
